@@ -413,6 +413,7 @@ func (ex *Exec) sliceOp(fr *Frame, x *ssa.Slice) Value {
 	var length, capacity, off int
 	var arr *ArrObj
 	var str *StrVal
+	var lazyFrom *Term
 	switch b := base.(type) {
 	case *SliceVal:
 		if b.symLen != nil {
@@ -426,6 +427,20 @@ func (ex *Exec) sliceOp(fr *Frame, x *ssa.Slice) Value {
 				if r, ok := ex.sliceOpSymHigh(fr, x, b); ok {
 					return r
 				}
+			}
+		}
+		if b.lazyCap != nil {
+			// reslicing within the length keeps the capacity lazy; anything that looks at the
+			// capacity (a max bound, or a high bound beyond the length) decides it now
+			within := x.Max == nil
+			if within && x.High != nil {
+				ht, isT := ex.get(fr, x.High).(*Term)
+				within = isT && ht.IsConst() && int64(ht.val) >= 0 && int(int64(ht.val)) <= b.len
+			}
+			if within {
+				lazyFrom = b.lazyCap
+			} else {
+				ex.forceCap(b)
 			}
 		}
 		arr, off, length, capacity = b.arr, b.off, b.len, b.cap
@@ -488,7 +503,11 @@ func (ex *Exec) sliceOp(fr *Frame, x *ssa.Slice) Value {
 	if arr == nil {
 		return &SliceVal{}
 	}
-	return &SliceVal{arr: arr, off: off + lo, len: hi - lo, cap: mx - lo}
+	r := &SliceVal{arr: arr, off: off + lo, len: hi - lo, cap: mx - lo}
+	if lazyFrom != nil {
+		r.lazyCap = ex.tt.Sub(lazyFrom, ex.intTerm(lo))
+	}
+	return r
 }
 
 // sliceOpSym: reslicing a slice of symbolic length. Handles s[lo:] with a concrete lo (the length
@@ -571,6 +590,7 @@ func (ex *Exec) sliceOpSym(fr *Frame, x *ssa.Slice, b *SliceVal) (Value, bool) {
 // sliceOpSymHigh: s[lo:h] on a concrete slice with symbolic h and concrete lo.
 func (ex *Exec) sliceOpSymHigh(fr *Frame, x *ssa.Slice, b *SliceVal) (Value, bool) {
 	tt := ex.tt
+	ex.forceCap(b)
 	lo := 0
 	if x.Low != nil {
 		lt := ex.toInt64Term(ex.get(fr, x.Low).(*Term), x.Low.Type())
